@@ -22,10 +22,24 @@ pub fn scenario<K: Elem, V: Elem>(c: &mut Ctx, _idx: u64, rng: &mut Rng) {
     let universe = *rng.pick(&[4u32, 8, 16, 24, 40, 64, 200]);
     let cap = *rng.pick(&[0usize, 0, 1, 3, 7, 14, 28, 100]);
     let n_ops = if c.is_miri() { 60 } else { *rng.pick(&[60usize, 150, 400]) };
-    let mut d: MapDrv<K, V> = MapDrv::new(PlanBH::new(plan, salt), universe, cap);
+    // one scenario in three starts from a recipe state (full, tombstone-saturated, random control-byte layout, ...)
+    let from_recipe = rng.chance(1, 3);
+    let mut d: MapDrv<K, V> = if from_recipe {
+        use crate::props::c04::{build_state, Recipe, StateSpec, RECIPES};
+        let recipe = RECIPES[rng.usize_below(RECIPES.len())];
+        let plan = if matches!(recipe, Recipe::Layout) { crate::plan::Plan::Ident } else { plan };
+        let spec = StateSpec { plan, salt, recipe, seed: rng.next(), size: rng.below(1000) as u32 };
+        let mut d = build_state::<K, V>(&spec, c);
+        d.validate_every = if crate::util::slow_lane() { 6 } else { 1 };
+        d.universe = if matches!(recipe, Recipe::Layout) { 300u32.min(K::ID_SPACE) } else { ((d.model.len() as u32) * 2 + 8).min(K::ID_SPACE) };
+        d
+    } else {
+        MapDrv::new(PlanBH::new(plan, salt), universe, cap)
+    };
     let w = if rng.chance(1, 4) { &W_ENTRY } else { &W_GENERAL };
     let mut desc = d.describe("C01 history");
     desc.set("with_capacity", Json::i(cap));
+    desc.set("from_recipe", Json::Bool(from_recipe));
     desc.set("ops", Json::i(n_ops));
     c.describe(desc);
     for _ in 0..n_ops {
